@@ -1244,6 +1244,149 @@ def _replay_transient(r):
     return None
 
 
+# ----------------------------------------------------------------- part 5: instances that can be falsy
+# A user class following the documented recipe `__signature__ = as_forged` with a
+# forwarding __call__, whose instances are containers: falsy while empty, truthy
+# once a call has recorded something.  Whatever the truth value, a retrieval on
+# an instance is about THAT instance (its own __call__ forwarding signature),
+# before and after calls, and the class keeps its constructor's signature.
+# Nothing is cached: the model's DWrap kind.
+FOPS = ['ins0', 'ins1', 'sig0', 'sig1', 'attr0', 'attr1', 'call0', 'call1', 'cls', 'drop0', 'drop1']
+FOP_MODEL = {'ins0': 3, 'ins1': 4, 'sig0': 3, 'sig1': 4, 'attr0': 3, 'attr1': 4, 'call0': 6, 'call1': 7,
+             'cls': 5, 'drop0': 9, 'drop1': 10}
+F_EXPECT = ["(stage, path, mode='w', *, encoding=None)", '(stage, host, port)']
+F_CLASS = '(sink, history=())'
+
+
+def _to_file(path, mode='w', *, encoding=None):
+    return ('file', path, mode, encoding)
+
+
+def _to_socket(host, port):
+    return ('socket', host, port)
+
+
+def build_pipeline():
+    class Pipeline(object):
+        __signature__ = specifiers.as_forged
+
+        def __init__(self, sink, history=()):
+            self.sink = sink
+            self.history = list(history)
+
+        def __len__(self):
+            return len(self.history)
+
+        @specifiers.forwards_to_method('sink')
+        def __call__(self, stage, *args, **kwargs):
+            self.history.append(stage)
+            return (self, self.sink(*args, **kwargs))
+    return Pipeline
+
+
+def run_falsy(hist):
+    Pipeline = build_pipeline()
+    sinks = [_to_file, _to_socket]
+    inst = [Pipeline(sinks[0]), Pipeline(sinks[1])]
+    codes = []
+    finds = []
+
+    def code(tag, ok, rec=True):
+        return tag * 1000 + (100 if ok else 0) + (10 if rec else 0)
+
+    def safe(f, o):
+        try:
+            return str(f(o))
+        except Exception as e:
+            return 'EXC:' + type(e).__name__
+
+    for step, o in enumerate(hist):
+        name = FOPS[o]
+        if name == 'cls':
+            got = safe(inspect.signature, Pipeline)
+            if got != F_CLASS:
+                finds.append(('C18:history', 'step %d: inspect.signature(Pipeline) is %s, expected %s' % (step, got, F_CLASS)))
+            codes.append(code(2, True))
+            continue
+        s_ = int(name[-1])
+        kind = name[:-1]
+        if kind == 'drop':
+            wr = weakref.ref(inst[s_])
+            inst[s_] = None
+            gc.collect()
+            dead = wr() is None
+            if not dead:
+                finds.append(('C18:leak:as-forged-instance', 'step %d (%s): the instance is still alive after del + gc.collect()' % (step, name)))
+            codes.append(code(5, True, dead))
+            inst[s_] = Pipeline(sinks[s_])
+            continue
+        if kind == 'call':
+            try:
+                r = inst[s_]('stage', 'x', 1)
+                ok = r[0] is inst[s_] and r[1][0] == ('file', 'socket')[s_]
+                del r
+            except Exception as e:
+                ok = False
+            if not ok:
+                finds.append(('C18:binding', 'step %d (%s): the call did not run on the instance it was made on' % (step, name)))
+            codes.append(code(3, ok))
+            continue
+        f = {'ins': inspect.signature, 'sig': sigtools.signature,
+             'attr': lambda x: x.__signature__}[kind]
+        got = safe(f, inst[s_])
+        if got != F_EXPECT[s_]:
+            finds.append(('C18:history', 'step %d (%s): %s of the %s instance %d (its sink is %s) is %s, expected its own '
+                          '__call__ forwarding signature %s' % (
+                              step, name, {'ins': 'inspect.signature', 'sig': 'sigtools.signature', 'attr': '.__signature__'}[kind],
+                              'empty (falsy)' if len(inst[s_]) == 0 else 'non-empty', s_, sinks[s_].__name__, got, F_EXPECT[s_])))
+        codes.append(code(2, True))
+    if specifiers.as_forged.currently_computing:
+        finds.append(('C18:guard-leak', 'as_forged.currently_computing is not empty after the history'))
+        specifiers.as_forged.currently_computing.clear()
+    return codes, finds
+
+
+def part_falsy(ctx, rep):
+    rng = ctx.rng('falsy')
+    n = len(FOPS)
+    hs = []
+    for L in range(1, (3 if ctx.quick else 4) + 1):
+        hs += list(itertools.product(range(n), repeat=L))
+    for _ in range(150 if ctx.quick else 3000):
+        hs.append(tuple(rng.randrange(n) for _ in range(rng.choice([4, 5, 6]))))
+    cases = []
+    for h in hs:
+        codes, finds = run_falsy(list(h))
+        cases.append((2, tuple(FOP_MODEL[FOPS[o]] for o in h), codes))
+        rep.distinct.add(('falsy', h))
+        seen = set()
+        for key, what in finds:
+            if key in seen:
+                continue
+            seen.add(key)
+            rep.violation(key, 'container-like class with __signature__ = as_forged, history %s: %s' % ([FOPS[o] for o in h], what),
+                          {'part': 'falsy', 'history': list(h), 'key': key})
+    rep.coverage['falsy_instance_histories'] = len(hs)
+    cs = coqrun.coq_list(['(%d%%nat, %s, %s)' % (
+        k, coqrun.coq_list(['%d%%nat' % o for o in h]), coqrun.coq_list(['%d' % c for c in codes]))
+        for k, h, codes in cases])
+    pre = COQ_PRE + '\nDefinition HS : list (nat * list nat * list N) := %s.\n' % cs
+    bad = coqrun.parse_nat_list(coqrun.coq_eval(pre, ['bad_hist HS 0'], name='c18falsy')[0])
+    for i in bad[:5]:
+        rep.corr_break('run_impl DWrap vs as_forged instances', [FOPS[o] for o in hs[i]],
+                       'model observations differ', cases[i][2])
+    return sum(len(h) for h in hs)
+
+
+def _replay_falsy(r):
+    codes, finds = run_falsy(list(r['history']))
+    for key, what in finds:
+        if r.get('key') is None or key == r['key']:
+            return '%s: container-like class with __signature__ = as_forged, history %s: %s' % (
+                key, [FOPS[o] for o in r['history']], what)
+    return None
+
+
 # ----------------------------------------------------------------- fixed scenarios
 def posoargs_self_scenario():
     """posoargs('self', 'a') on a method: decoration and class-level use work,
@@ -1275,7 +1418,8 @@ def run(ctx, rep):
     e2 = part_history(ctx, rep)
     e3 = part_sibling(ctx, rep)
     e4 = part_transient(ctx, rep)
-    rep.evaluations = e1 + e2 + e3 + e4
+    e5 = part_falsy(ctx, rep)
+    rep.evaluations = e1 + e2 + e3 + e4 + e5
     msg = posoargs_self_scenario()
     if msg:
         rep.violation('C18:posoargs-self-rebind', msg, {'part': 'posoargs-self'})
@@ -1347,6 +1491,8 @@ def replay(ctx, data):
         return _replay_sibling(r)
     if r.get('part') == 'transient':
         return _replay_transient(r)
+    if r.get('part') == 'falsy':
+        return _replay_falsy(r)
     if r.get('part') == 'posoargs-self':
         return posoargs_self_scenario()
     return None
